@@ -1,7 +1,9 @@
 ---- MODULE LLSDFormat_Trace ----
 (* Binding B3, code -> spec, of C12's codec clause.  One event per (value, serialised form) *)
 (* recorded from the real formatters and parsers:                                           *)
-(*  {"ev":"Form","form":"bin"|"binh"|"zip"|"not"|"xml","v":value,"st":"ok"|"raise",         *)
+(*  {"ev":"Form","form":"bin"|"binh"|"zip"|"not"|"xml"|"xmlp","v":value,"st":"ok"|"raise",  *)
+(*   "sniff":expected format for llsd.parse() or "none","head":[first bytes],"sst":..,"rs":   *)
+(*   value handed back by llsd.parse(),                                                      *)
 (*   "out":[bytes],"pst":"ok"|"raise","r":re-parsed value,"dt":[[d8,civil]..],              *)
 (*   "rt":[[text,b8]..]}                                                                    *)
 (* v and r are projections of Python objects (type tag + payload, maps sorted by key);      *)
@@ -22,7 +24,7 @@ Binaryish == {"bin", "binh", "zip"}
 TForm ==
     /\ IsEvent("Form") /\ UNCHANGED tid
     /\ Env("value is canonical LLSD", IsLLSD(Rec.v) /\ Same(Canon(Rec.v), Rec.v))
-    /\ Env("known form", Rec.form \in Binaryish \cup {"not", "xml"})
+    /\ Env("known form", Rec.form \in Binaryish \cup {"not", "xml", "xmlp"})
     /\ Chk(Rec.form \o ".format-ok", Rec.st = "ok")
     /\ Chk(Rec.form \o ".parse-ok", Rec.st = "ok" => Rec.pst = "ok")
     \* the value that comes back is the value that went in: same structure, same LLSD types, same instants
@@ -31,6 +33,12 @@ TForm ==
     /\ Chk(Rec.form \o ".denotes", (Rec.st = "ok" /\ Rec.form \in Binaryish) => Same(DenotesBin(Rec.out, Rec.dt), Rec.v))
     \* with_header=True / False means what it says (the zipped form's payload is not constrained by the property)
     /\ Chk(Rec.form \o ".header", (Rec.st = "ok" /\ Rec.form \in {"bin", "binh"}) => ((Rec.form = "binh") <=> (BodyStart(Rec.out) > 1)))
+    \* documents that announce their own format ("sniff" = "bin" | "xml" | "not"; "none" for bare / zipped binary) also go
+    \* through the content-sniffing dispatcher llsd.parse(): it must pick that format (head = first bytes of the
+    \* document) and hand back the same value
+    /\ Chk(Rec.form \o ".sniff-kind", (Rec.st = "ok" /\ Rec.sniff # "none") => Sniff(Rec.head) = Rec.sniff)
+    /\ Chk(Rec.form \o ".sniff-parse", (Rec.st = "ok" /\ Rec.sniff # "none") => (Rec.sst = "ok" /\ Same(Rec.rs, Rec.v)))
+    /\ Chk(Rec.form \o ".sniff-denotes", (Rec.st = "ok" /\ Rec.sniff \in {"bin", "not"}) => Same(SniffParse(Rec.out, Rec.dt, Rec.rt), Rec.v))
     /\ Chk("not.denotes", (Rec.st = "ok" /\ Rec.form = "not") => Same(DenotesNot(Rec.out, Rec.rt), Rec.v))
     /\ Chk("not.no-raw-newline", (Rec.st = "ok" /\ Rec.form = "not") => NoRawNewline(Rec.out))
 
